@@ -32,6 +32,7 @@ def mon_init(c, cur, goal, phase, offer_next=None):
     g['g_answer'] = z3.IntVal(0)
     g['g_expect_empty'] = NONE
     g['g_offers'] = z3.IntVal(0)
+    g['g_bad'] = z3.BoolVal(False)
 
 
 def temp_of(it, chart):
@@ -152,8 +153,9 @@ class HandlerModel:
                 if c.choose(2, 'init-tran') == 0:
                     i = c.fresh('init_target', Ref)
                     if self.weak:
+                        # C24: the initial transition may name ANY state of the chart (outside s, or s itself)
                         c.assume(is_state(i))
-                        c.pyghost.setdefault('bad_init', []).append(z3.Not(strictly_encloses(s, i)))
+                        g['g_bad'] = z3.Or(g['g_bad'], z3.Not(strictly_encloses(s, i)))
                     else:
                         c.assume(strictly_encloses(s, i))
                     set_temp_fun(it, chart, i)
@@ -380,6 +382,7 @@ def instr_mods(it, env):
 def install(world, weak=False, spied=False):
     from . import tree
     world.hooks['call_state'] = HandlerModel(world, weak=weak, spied=spied)
+    world.weak = weak
     if spied:
         world.extra_mods = instr_mods
     world.loopspecs.update(init_specs())
@@ -387,12 +390,14 @@ def install(world, weak=False, spied=False):
     world.contracts[TR] = FnContract(TR, trans_contract)
     world.loopspecs.update(dispatch_specs())
     world.loopspecs.update(query_specs())
+    if weak:
+        world.loopspecs.update(weak_specs())
     world.local_types[('hsm.HsmEventProcessor.child_state', 'child')] = 'state'
     world.local_types[('hsm.HsmEventProcessor.init', 'tpath')] = 'list<state>'
     world.local_types[('hsm.HsmEventProcessor.init', 'outermost')] = 'state'
     world.local_types[('hsm.HsmEventProcessor.dispatch', 'tpath')] = 'list<state>'
     world.local_types[('hsm.HsmEventProcessor.trans_', 'tpath')] = 'list<state>'
-    world.axioms = tree.theory()
+    world.axioms = tree.theory() + (weak_axioms() if weak else [])
 
 
 # =====================================================================================================
@@ -775,3 +780,180 @@ def query_specs():
 
     return {(II, 1): LoopSpec(inv_is_in, mods, var, 'is_in-search', locals_kind={'r': 'int'}),
             (CS, 1): LoopSpec(inv_child, mods, var, 'child_state-search', locals_kind={'r': 'int'})}
+
+
+# =====================================================================================================
+# C24: the same loops under the WEAKENED handler contract (an init may name any state; an offer may return None)
+# =====================================================================================================
+MON_VARS.append('g_bad')
+DMAX = z3.Int('DMAX')          # the chart is finite: some bound on depth exists
+
+
+def weak_axioms():
+    return [z3.ForAll([s_w], z3.Implies(is_state(s_w), depth(s_w) <= DMAX), patterns=[depth(s_w)])]
+
+
+s_w = z3.Const('s!w', Ref)
+
+
+def weak_specs():
+    P = 'hsm.HsmEventProcessor.init'
+
+    def mods(it, env):
+        tp = env['tpath']
+        return [(tp, '$items'), (tp, '$len'), (temp_of(it, env['self']), 'fun')]
+
+    def good(g):
+        return z3.Not(g['g_bad'])
+
+    # ---------------- init
+    def inv1(it, env):
+        c, g = it.c, it.c.ghost
+        self = env['self']
+        tp, items, n = _tp(it, env)
+        i = temp_fun(it, self)
+        out = env['outermost'].e
+        return [('outermost-is-current', z3.And(is_state(out), g['g_cur'] == out)),
+                ('target-is-goal', z3.And(g['g_goal'] == i, is_state(i))),
+                ('bad-exactly-when-the-target-is-not-inside', g['g_bad'] == z3.Not(strictly_encloses(out, i))),
+                ('tpath-capacity', z3.And(n == c.to_int(env['max_index']) + 1, n >= 1)),
+                ('no-exit-so-far', z3.And(g['g_n_ex'] == 0, g['g_phase'] == ENTERING)),
+                ('state-fun-untouched', state_fun(it, self) == c.pyghost['state_fun0'])]
+
+    def var1(it, env):
+        # every round either descends (a good init) or ends in an exception (a bad one)
+        return 2 * (DMAX - depth(env['outermost'].e)) + z3.If(it.c.ghost['g_bad'], 0, 1)
+
+    s1 = _mon_mods(LoopSpec(inv1, mods, var1, 'init-outer', locals_kind={'r': 'int', 'entery_fn': ('ref', 'state'),
+                                                                        'previous_super': ('ref', 'state')}))
+
+    def inv2(it, env):
+        c, g = it.c, it.c.ghost
+        self = env['self']
+        tp, items, n = _tp(it, env)
+        f = temp_fun(it, self)
+        out = env['outermost'].e
+        i = z3.Select(items, 0)
+        idx = c.to_int(env['index'])
+        mx = c.to_int(env['max_index'])
+        ps = c.to_ref(env['previous_super'])
+        return [('index-range', z3.And(0 <= idx, idx <= mx)),
+                ('cursor-is-ancestor-or-top-again', z3.And(is_state(i), is_state(f), z3.Or(
+                    z3.And(idx <= depth(i), f == anc(i, depth(i) - idx)),
+                    z3.And(idx == depth(i) + 1, f == TOP, out != TOP)))),
+                ('path-recorded', z3.ForAll([_k], z3.Implies(z3.And(0 <= _k, _k <= idx, _k <= depth(i)),
+                                                             z3.Select(items, _k) == anc(i, depth(i) - _k)),
+                                            patterns=[z3.Select(items, _k)])),
+                ('tpath-capacity', z3.And(n == mx + 1, n >= 1)),
+                ('top-visited-at-most-once-more', z3.And(idx <= depth(i) + 1)),
+                ('previous-super', z3.If(idx == 0, ps == NONE, ps == f)),
+                ('outermost-not-passed', z3.ForAll([_d], z3.Implies(z3.And(depth(f) < _d, _d <= depth(i)),
+                                                                    anc(i, _d) != out), patterns=[anc(i, _d)])),
+                ('bad-exactly-when-the-target-is-not-inside', g['g_bad'] == z3.Not(strictly_encloses(out, i))),
+                ('monitor-untouched', z3.And(g['g_cur'] == out, g['g_goal'] == i, g['g_n_ex'] == 0,
+                                             g['g_phase'] == ENTERING, is_state(out))),
+                ('state-fun-untouched', state_fun(it, self) == c.pyghost['state_fun0'])]
+
+    def var2(it, env):
+        c = it.c
+        f = temp_fun(it, env['self'])
+        return 2 * depth(f) + z3.If(c.to_ref(env['previous_super']) == f, 0, 1)
+
+    s2 = LoopSpec(inv2, mods, var2, 'init-path', locals_kind={'r': 'int'})
+
+    def inv3(it, env):
+        c, g = it.c, it.c.ghost
+        self = env['self']
+        tp, items, n = _tp(it, env)
+        out = env['outermost'].e
+        i = z3.Select(items, 0)
+        idx = c.to_int(env['index'])
+        N = depth(i) - depth(out)
+        return [('index-range', z3.And(1 <= idx, idx <= N, N < n)),
+                ('current-is-path-element', g['g_cur'] == anc(i, depth(i) - idx)),
+                ('path-recorded', z3.ForAll([_k], z3.Implies(z3.And(0 <= _k, _k <= N),
+                                                             z3.Select(items, _k) == anc(i, depth(i) - _k)),
+                                            patterns=[z3.Select(items, _k)])),
+                ('target-below-outermost', strictly_encloses(out, i)),
+                ('goal', g['g_goal'] == i),
+                ('no-bad-init-so-far', z3.Not(g['g_bad'])),
+                ('tpath-capacity', z3.And(n == c.to_int(env['max_index']) + 1, n >= 1)),
+                ('no-exit-so-far', z3.And(g['g_n_ex'] == 0, g['g_phase'] == ENTERING)),
+                ('state-fun-untouched', state_fun(it, self) == c.pyghost['state_fun0'])]
+
+    s3 = _mon_mods(LoopSpec(inv3, mods, lambda it, env: it.c.to_int(env['index']), 'init-enter',
+                            locals_kind={'r': 'int', 'entery_fn': ('ref', 'state')}))
+    out = {(P, 1): s1, (P, 2): s2, (P, 3): s3}
+
+    # ---------------- dispatch: the initial-transition part
+    strict = dispatch_specs()
+
+    def dmods(it, env):
+        tp = env['tpath']
+        return [(tp, '$items'), (tp, '$len'), (temp_of(it, env['self']), 'fun')]
+
+    def inv4(it, env):
+        c, g = it.c, it.c.ghost
+        tp, items, n = _tp(it, env)
+        t = env['t'].e
+        return [('state-fun-untouched', state_fun(it, env['self']) == c.pyghost['cur0']),
+                ('settled-at-t', z3.And(is_state(t), t != TOP, g['g_cur'] == t, g['g_goal'] == t)),
+                ('capacity', z3.And(n >= 3, n == c.to_int(env['max_index']) + 1)),
+                ('answer', z3.And(g['g_answer'] == 1, g['g_n_in'] >= 0)),
+                ('no-bad-init-survived', good(g))]
+
+    def var4(it, env):
+        return DMAX - depth(env['t'].e)
+    s4 = LoopSpec(inv4, dmods, var4, 'dispatch-init')
+    s4.ghost_modifies = ['g_cur', 'g_goal', 'g_phase', 'g_n_en', 'g_n_in', 'g_last_in_tran', 'g_turn', 'g_turned', 'g_bad']
+
+    def inv5(it, env):
+        c, g = it.c, it.c.ghost
+        tp, items, n = _tp(it, env)
+        t = env['t'].e
+        i = z3.Select(items, 0)
+        ip = c.to_int(env['ip'])
+        f = temp_fun(it, env['self'])
+        return [('state-fun-untouched', state_fun(it, env['self']) == c.pyghost['cur0']),
+                ('target', z3.And(is_state(i), is_state(t), t != TOP, g['g_cur'] == t, g['g_goal'] == i,
+                                  z3.Implies(good(g), strictly_encloses(t, i)))),
+                ('ip-range', z3.And(0 <= ip, ip <= c.to_int(env['max_index']))),
+                ('cursor', z3.And(is_state(f), z3.Or(z3.And(ip + 1 <= depth(i), f == anc(i, depth(i) - ip - 1)),
+                                                     z3.And(ip + 1 > depth(i), f == TOP)), ip <= depth(i) + 1)),
+                ('entry-path', z3.ForAll([_k], z3.Implies(z3.And(0 <= _k, _k <= ip, _k <= depth(i)),
+                                                          z3.Select(items, _k) == anc(i, depth(i) - _k)),
+                                         patterns=[z3.Select(items, _k)])),
+                ('t-not-passed', z3.ForAll([_d], z3.Implies(z3.And(depth(f) < _d, _d < depth(i)), anc(i, _d) != t),
+                                           patterns=[anc(i, _d)])),
+                ('capacity', z3.And(n >= 3, n == c.to_int(env['max_index']) + 1)),
+                ('monitor', z3.And(g['g_answer'] == 1, g['g_n_in'] >= 1, g['g_last_in_tran']))]
+
+    def var5(it, env):
+        c = it.c
+        f = temp_fun(it, env['self'])
+        prev = env.get('previous_super')
+        extra = z3.If(c.to_ref(prev) == f, 0, 1) if prev is not None else z3.IntVal(1)
+        return 2 * depth(f) + extra
+    s5 = LoopSpec(inv5, dmods, var5, 'dispatch-init-path', locals_kind={'previous_super': ('ref', 'state')})
+
+    def inv6(it, env):
+        c, g = it.c, it.c.ghost
+        tp, items, n = _tp(it, env)
+        t = env['t'].e
+        i = z3.Select(items, 0)
+        ip = c.to_int(env['ip'])
+        N = depth(i) - depth(t) - 1
+        return [('state-fun-untouched', state_fun(it, env['self']) == c.pyghost['cur0']),
+                ('target-below-t', strictly_encloses(t, i)), ('ip-range', z3.And(0 <= ip, ip <= N)),
+                ('configuration-above-next-entry', z3.And(is_state(i), g['g_cur'] == anc(i, depth(i) - ip - 1))),
+                ('entry-path', z3.ForAll([_k], z3.Implies(z3.And(0 <= _k, _k <= N), z3.Select(items, _k) == anc(i, depth(i) - _k)),
+                                         patterns=[z3.Select(items, _k)])),
+                ('goal', z3.And(g['g_goal'] == i, z3.Select(items, 0) == i)),
+                ('capacity', z3.And(n >= 3, N < n, n == c.to_int(env['max_index']) + 1)),
+                ('monitor', z3.And(g['g_answer'] == 1, g['g_n_in'] >= 1, good(g)))]
+    s6 = LoopSpec(inv6, lambda it, env: [(temp_of(it, env['self']), 'fun')], lambda it, env: it.c.to_int(env['ip']) + 1,
+                  'dispatch-init-enter')
+    s6.ghost_modifies = ['g_cur', 'g_phase', 'g_n_en', 'g_turn', 'g_turned']
+    out.update({(DI, 1): strict[(DI, 1)], (DI, 2): strict[(DI, 2)], (DI, 3): strict[(DI, 3)], (DI, 4): s4, (DI, 5): s5,
+                (DI, 6): s6})
+    return out
